@@ -33,6 +33,9 @@ type Engine struct {
 	violations      []*violation
 	vioSites        map[string]bool
 	reached         map[string]map[string]interface{}
+	expected        map[string]bool // markers the harness declared it must reach (verifrt.Expect)
+	hpkg            *ssa.Package    // the harness's package (package-level default models live there)
+	pkgModels       map[*ssa.Function]*ssa.Function
 	paths           int
 	pathsDone       int
 	instrs          int64
@@ -1072,6 +1075,15 @@ func (e *Engine) invoke(s *State, f *Frame, fnv Value, method *types.Func, args 
 			bindings = rv.Bindings
 		}
 	}
+	// package-level default models: a function VerifModel_<name with non-alphanumerics as '_'> in the harness's own
+	// package stands in for an environment function in every harness of that package (e.g. VerifModel_syscall_Read)
+	if e.hpkg != nil && len(fn.Blocks) == 0 || (fn.Pkg != nil && fn.Pkg.Pkg.Path() == "syscall") {
+		if mf := e.pkgModel(fn); mf != nil {
+			fn = mf
+			bindings = nil
+			e.usedModels = true
+		}
+	}
 	// redirects to Go models in verifrt
 	if to, ok := redirects[fn.String()]; ok {
 		rt := e.prog.ImportedPackage("github.com/IrineSistiana/mosproxy/internal/verifrt")
@@ -1116,6 +1128,30 @@ func (e *Engine) invoke(s *State, f *Frame, fnv Value, method *types.Func, args 
 }
 
 // pushCall is used by intrinsics to call back into interpreted code; the result goes to retIdx of frame f.
+func (e *Engine) pkgModel(fn *ssa.Function) *ssa.Function {
+	if e.hpkg == nil {
+		return nil
+	}
+	if m, ok := e.pkgModels[fn]; ok {
+		return m
+	}
+	if e.pkgModels == nil {
+		e.pkgModels = map[*ssa.Function]*ssa.Function{}
+	}
+	var sb strings.Builder
+	sb.WriteString("VerifModel_")
+	for _, r := range fn.String() {
+		if r >= 'a' && r <= 'z' || r >= 'A' && r <= 'Z' || r >= '0' && r <= '9' {
+			sb.WriteRune(r)
+		} else {
+			sb.WriteByte('_')
+		}
+	}
+	m := e.hpkg.Func(sb.String())
+	e.pkgModels[fn] = m
+	return m
+}
+
 func (e *Engine) pushCall(s *State, f *Frame, fv *FuncV, args []Value, retIdx int, advance bool) {
 	if advance {
 		f.ip++
